@@ -20,7 +20,7 @@ def run(ctx):
     gate = vf.grep_gate()
     if gate:
         ctx.broken.append('forbidden constructs in coq/: ' + '; '.join(gate[:5]))
-    n = 1200 if not ctx.thorough() else 40000
+    n = 3000 if not ctx.thorough() else 40000
     rc, out = vf.sh([os.path.join(vf.BIN, 'c19'), '-seed', str(ctx.seed), '-n', str(n), '-out', ctx.out], timeout=3000)
     if rc != 0:
         ctx.broken.append('harness c19 failed: ' + out[-400:])
